@@ -566,12 +566,12 @@ func (vfs *MemFS) OpenFile(name string, flag int, perm fs.FileMode) (avfs.File, 
 		c.mu.Lock()
 		defer c.mu.Unlock()
 
-		if !c.checkPermission(om, vfs.User()) {
-			return (*MemFile)(nil), &fs.PathError{Op: op, Path: name, Err: vfs.err.PermDenied}
-		}
-
 		if om&avfs.OpenCreateExcl != 0 {
 			return (*MemFile)(nil), &fs.PathError{Op: op, Path: name, Err: vfs.err.FileExists}
+		}
+
+		if !c.checkPermission(om, vfs.User()) {
+			return (*MemFile)(nil), &fs.PathError{Op: op, Path: name, Err: vfs.err.PermDenied}
 		}
 
 		if om&avfs.OpenTruncate != 0 {
